@@ -153,6 +153,9 @@ def kdtree(seqs: OneOf(Seq(Str, "list"), Seq(Str, "ndarray"), SeriesT(Str, "int"
     requires(all_over(seqs, "ACDEFGHIKLMNPQRSTVWY"))
     raises("AssertionError", when=not valid_search_args(seqs, max_edits, max_returns, n_cpu, custom_distance,
                                                          max_custom_distance, output_type, None))
+    # C10: the argument check runs on the caller's own objects (not on converted copies, which NumPy would have coerced)
+    validates("pyrepseq.nn._check_common_input", seqs=seqs, max_edits=max_edits, max_returns=max_returns, n_cpu=n_cpu,
+              custom_distance=custom_distance, max_cust_dist=max_custom_distance, output_type=output_type)
     ensures(forall_in(triplets_of(result), lambda t: 0 <= t[0] and t[0] < len(seqs) and 0 <= t[1] and t[1] < len(seqs) and t[0] != t[1]
                       and is_neighbor(seqs[t[0]], seqs[t[1]], custom_distance, max_edits, max_custom_distance)
                       and t[2] == neighbor_value(seqs[t[0]], seqs[t[1]], custom_distance)), name="post[sound: original positions]")
